@@ -9,9 +9,12 @@ import (
 	"strings"
 	"testing"
 
+	"github.com/cloudflare/circl/abe/cpabe/tkn20"
 	"github.com/cloudflare/circl/zz_verif/vlib"
 	"pgregory.net/rapid"
 )
+
+type tknPolicy = tkn20.Policy
 
 // Additional input generators for formats that c10core's generic mutator
 // reaches poorly:
@@ -59,17 +62,18 @@ func trimStack(st string) string {
 }
 
 // probe calls e on in and reports a panic (same oracle and key as c10core.probe).
-func probe(t vlib.TB, e *Entry, kind string, in []byte) {
+func probe(t vlib.TB, e *Entry, kind string, in []byte) (panicked bool) {
 	sub := "decode/" + e.Group
 	vlib.Eval(sub)
 	if p, st := vlib.Catch(func() { e.Call(in) }); p != nil {
 		key := "C10/panic/" + e.Name + "/" + vlib.PanicClass(p)
 		vlib.Class(sub, "panic")
 		vlib.Report(t, key, fmt.Sprintf("entry=%s input(%s, %d bytes)=%s panic=%v\n%s", e.Name, kind, len(in), vlib.Hex(in), p, trimStack(st)))
-		return
+		return true
 	}
 	vlib.NonTrivial(sub, "in="+kind, []byte(e.Name), in)
 	vlib.Sample(sub, e.Name+"/"+kind, fmt.Sprintf("%s(%s: %s) returned", e.Name, kind, vlib.Hex(in)))
+	return false
 }
 
 type directTB struct {
@@ -145,10 +149,16 @@ func leMutate(t *rapid.T, name string, vi int, v []byte) (string, []byte) {
 	var kinds []string
 	k := rapid.SampledFrom([]int{1, 1, 1, 2, 3}).Draw(t, "nfields")
 	for j := 0; j < k; j++ {
-		// the first 40 candidates are the outer (structural) fields: favour them
+		// favour the structural fields (known for ciphertexts, otherwise the first 40 candidates)
 		var f leField
 		if rapid.Bool().Draw(t, "outer") {
-			f = cands[rapid.IntRange(0, min(len(cands), 40)-1).Draw(t, "fi")]
+			outer := cands[:min(len(cands), 40)]
+			if strings.Contains(name, "Decrypt") && !strings.Contains(name, "Unmarshal") || strings.Contains(name, "Ciphertext") {
+				if sf, _ := tknWalkCached(v); len(sf) > 0 {
+					outer = sf
+				}
+			}
+			f = outer[rapid.IntRange(0, len(outer)-1).Draw(t, "fi")]
 		} else {
 			f = cands[rapid.IntRange(0, len(cands)-1).Draw(t, "fi")]
 		}
@@ -234,52 +244,191 @@ func TestC10StructuredLE(t *testing.T) {
 	}
 }
 
-// TestC10NestedSweep enumerates the values of the enclosing length fields of a
-// v1.3.8 CP-ABE ciphertext (macData, C1, policy, first matrix) and of the
-// old-format equivalents, for the three ciphertext parsers.
+// tknWalk returns the structural little-endian fields of a valid CP-ABE
+// ciphertext (either format) in order of appearance; encl are the length fields
+// whose extent contains further fields (macData, C1, policy, formula length).
+// Layout (bk.go EncryptCCA, tk.go ciphertextHeader.marshalBinary, policy.go, formula.go):
+//
+//	["v1.3.8"] lenW id | lenX macData{ lenX C1{ len16 policy{ len16 formula{ n16 | n*(class8 in0_16 in1_16 out16) }
+//	  | nWires16 | nWires*( len16 wire{ len16 label | len16 raw | len16 scalar | positive8 } ) }
+//	  | len16 matrixG2{rows16 cols16 …} | c2Len16 | c2Len*(len16 matrix) | c3Len16 | c3Len*(len16 matrix) | c3Len*(len16 matrix-or-empty) }
+//	  | lenX env } | len16 tag          (X = 32 bits with the version prefix, 16 bits without)
+func tknWalk(ct []byte) (fields, encl []leField) {
+	defer func() { _ = recover() }() // a valid encoding never gets here; keep what was collected
+	o, x := 0, 2
+	if len(ct) >= 6 && string(ct[:6]) == "v1.3.8" {
+		o, x = 6, 4
+	}
+	add := func(off, w int) leField {
+		f := leField{off, w}
+		fields = append(fields, f)
+		return f
+	}
+	id := add(o, 2)
+	o += 2 + int(leGet(ct, id))
+	mac := add(o, x)
+	encl = append(encl, mac)
+	macEnd := o + x + int(leGet(ct, mac))
+	o += x
+	c1 := add(o, x)
+	encl = append(encl, c1)
+	c1End := o + x + int(leGet(ct, c1))
+	o += x
+	// header
+	pol := add(o, 2)
+	encl = append(encl, pol)
+	polEnd := o + 2 + int(leGet(ct, pol))
+	o += 2
+	fl := add(o, 2)
+	encl = append(encl, fl)
+	fEnd := o + 2 + int(leGet(ct, fl))
+	o += 2
+	ng := add(o, 2)
+	o += 2
+	for i := 0; i < int(leGet(ct, ng)); i++ {
+		add(o+1, 2)
+		add(o+3, 2)
+		add(o+5, 2)
+		o += 7
+	}
+	o = fEnd
+	nw := add(o, 2)
+	o += 2
+	for i := 0; i < int(leGet(ct, nw)); i++ {
+		wl := add(o, 2)
+		wEnd := o + 2 + int(leGet(ct, wl))
+		o += 2
+		for j := 0; j < 3; j++ {
+			f := add(o, 2)
+			o += 2 + int(leGet(ct, f))
+		}
+		o = wEnd
+	}
+	o = polEnd
+	matrix := func() {
+		l := add(o, 2)
+		if leGet(ct, l) >= 4 {
+			add(o+2, 2)
+			add(o+4, 2)
+		}
+		o += 2 + int(leGet(ct, l))
+	}
+	matrix() // c1
+	c2 := add(o, 2)
+	o += 2
+	for i := 0; i < int(leGet(ct, c2)); i++ {
+		matrix()
+	}
+	c3 := add(o, 2)
+	o += 2
+	for i := 0; i < 2*int(leGet(ct, c3)); i++ {
+		matrix()
+	}
+	o = c1End
+	add(o, x) // env
+	o = macEnd
+	add(o, 2) // tag
+	return fields, encl
+}
+
+var tknWalkCache = map[string][2][]leField{}
+
+func tknWalkCached(ct []byte) ([]leField, []leField) {
+	k := string(ct)
+	if v, ok := tknWalkCache[k]; ok {
+		return v[0], v[1]
+	}
+	f, e := tknWalk(ct)
+	tknWalkCache[k] = [2][]leField{f, e}
+	return f, e
+}
+
+// tknSweepInputs enumerates boundary values of every structural field of a
+// valid ciphertext, and for each enclosing length field every value that makes
+// it end at / just past the start of each later structural field.
+func tknSweepInputs(v []byte) [][]byte {
+	fields, encl := tknWalkCached(v)
+	var out [][]byte
+	set := func(f leField, nv uint64) {
+		if nv == leGet(v, f) {
+			return
+		}
+		b := append([]byte{}, v...)
+		lePut(b, f, nv)
+		out = append(out, b)
+	}
+	for _, f := range fields {
+		old := leGet(v, f)
+		for _, nv := range []uint64{0, 1, old - 2, old - 1, old + 1, old + 2, old + 7, old * 2, ^uint64(0), 1 << (8*f.w - 1)} {
+			set(f, nv)
+		}
+	}
+	for _, e := range encl {
+		end := e.off + e.w + int(leGet(v, e))
+		for _, g := range fields {
+			if g.off <= e.off || g.off > end {
+				continue
+			}
+			for d := 0; d <= 2; d++ {
+				if nv := g.off + d - e.off - e.w; nv >= 0 {
+					set(e, uint64(nv))
+				}
+			}
+		}
+	}
+	return out
+}
+
+// TestC10NestedSweep is a deterministic enumeration over the structural
+// fields of the CP-ABE ciphertext (both formats). ExtractFromCiphertext sees
+// every input; the other ciphertext consumers share its header parser, so
+// (to bound the cost: they run pairings once the header parses) they see the
+// inputs on which ExtractFromCiphertext panicked or succeeded, plus all
+// mutations of the fields that only they read (env, tag).
 func TestC10NestedSweep(t *testing.T) {
 	defer vlib.Done()
-	names := []string{"tkn20.Policy.ExtractFromCiphertext", "tkn20.Attributes.CouldDecrypt", "tkn20.AttributeKey.Decrypt", "tkn20.Policy.ExtractFromCiphertext+use"}
-	for ni, name := range names {
-		if ni%vlib.NShards != vlib.Shard {
+	ext := entryByName("tkn20.Policy.ExtractFromCiphertext")
+	if ext == nil {
+		t.Skip("no tkn20 entries")
+	}
+	others := []*Entry{entryByName("tkn20.Policy.ExtractFromCiphertext+use"), entryByName("tkn20.Attributes.CouldDecrypt"),
+		entryByName("tkn20.AttributeKey.Decrypt"), entryByName("tkn20.AttributeKey.Decrypt/golden-key")}
+	d := &directTB{t: t}
+	run := func(e *Entry, in []byte) bool {
+		d.replay = map[string]interface{}{"entry": e.Name, "input": fmt.Sprintf("%x", in)}
+		return probe(d, e, "nested-sweep", in)
+	}
+	accepted := false
+	ext2 := *ext
+	ext2.Call = func(b []byte) { var pol tknPolicy; accepted = pol.ExtractFromCiphertext(b) == nil }
+	for vi := 0; vi < max(1, ext.NValid); vi++ {
+		if vi%vlib.NShards != vlib.Shard {
 			continue
 		}
-		e := entryByName(name)
-		if e == nil {
-			continue
+		v := ext.Valid(vi)
+		if !vlib.Thorough() && len(v) > 3000 {
+			continue // the ciphertext of the large policy: thorough tier only
 		}
-		for vi := 0; vi < max(1, e.NValid); vi++ {
-			v := e.Valid(vi)
-			cands := leCandidates(v)
-			// the structural prefix fields: those within the first 64 bytes
-			for _, f := range cands {
-				if f.off > 64 {
-					break
+		fields, _ := tknWalkCached(v)
+		tail := map[int]bool{}
+		if len(fields) >= 2 {
+			tail[fields[len(fields)-1].off] = true
+			tail[fields[len(fields)-2].off] = true
+		}
+		for _, in := range tknSweepInputs(v) {
+			accepted = false
+			panicked := run(&ext2, in)
+			// does the input differ from v only in env/tag length fields?
+			onlyTail := false
+			for off := range tail {
+				if off+1 < len(in) && (in[off] != v[off] || in[off+1] != v[off+1]) {
+					onlyTail = true
 				}
-				old := int(leGet(v, f))
-				hi := old + 3
-				step := 1
-				if !vlib.Thorough() && hi > 150 {
-					step = hi/150 + 1
-				}
-				if e.Cost > 1 {
-					step *= 2
-				}
-				d := &directTB{t: t}
-				try := func(nv int) {
-					out := append([]byte{}, v...)
-					lePut(out, f, uint64(nv))
-					d.replay = map[string]interface{}{"entry": e.Name, "input": fmt.Sprintf("%x", out)}
-					probe(d, e, "nested-sweep", out)
-				}
-				for nv := 0; nv <= hi; nv += step {
-					if nv != old {
-						try(nv)
-					}
-				}
-				for nv := max(0, old-12); nv <= old+3; nv++ { // always the neighbourhood of the true value
-					if nv != old {
-						try(nv)
+			}
+			if panicked || accepted || onlyTail {
+				for _, e := range others {
+					if e != nil {
+						run(e, in)
 					}
 				}
 			}
